@@ -78,10 +78,12 @@ func bound(tier string) string {
 	return fmt.Sprintf("A1: %d objects/definition worlds (numbers, strings, symbols, characters, proper and dotted lists, vectors, arrays, "+
 		"hash tables, lambdas, defuns, macros, compiled calls, packages, flavors+methods, flavor and CLOS instances, classes, generic functions) "+
 		"x all %d right margins %d..%d (every distinct layout read back and evaluated); "+
-		"A2: all %d sessions = every subset of size <= %d of the %d item menu + the full menu + 2 dedicated sessions (forward reference, "+
-		"flavor forest), each in 3-4 fresh processes, 24 snapshots of the unchanged session compared with each other, (load) of the whole "+
+		"A2: all %d sessions = every subset of size <= %d of the %d item basic menu, every subset of size <= %d of the combined menu "+
+		"(basic + %d redefinition items: defun/defmacro/defvar+setq/defparameter/generic method/defclass/flavor method defined and then "+
+		"redefined before the snapshot; quick: the redefinition items alone), the full basic, redefinition and combined menus, 2 dedicated sessions (forward reference, "+
+		"flavor forest), each in 2-4 fresh processes, 24 snapshots of the unchanged session compared with each other, (load) of the whole "+
 		"file, (load) without the forms of slip's own swank package, form by form load when both abort",
-		n, maxMargin-minMargin+1, minMargin, maxMargin, cnt, k, len(menu))
+		n, maxMargin-minMargin+1, minMargin, maxMargin, cnt, k, len(menu), redefMaxSize(tier), len(redefItems))
 }
 
 func execCase(spec string) (res engine.Result) {
